@@ -86,15 +86,23 @@ func c09NewNop() Shedder {
 type c09Op struct {
 	Op string `json:"op"`          // arr | pass | fail | adv (ms) | advu (microseconds) | cpu
 	I  int    `json:"i,omitempty"` // pass/fail: index into the outstanding list (mod len)
+	S  int    `json:"s,omitempty"` // arr/pass/fail: which shedder of the trace (mod number of shedders)
 	D  int64  `json:"d,omitempty"` // adv: milliseconds; advu: microseconds; cpu: reading
 }
 
 type c09Trace struct {
-	BucketMs  int64   `json:"bucket_ms"`
-	Buckets   int     `json:"buckets"`
-	Threshold int64   `json:"cpu_threshold"`
-	CPU0      int64   `json:"cpu0"`
-	Ops       []c09Op `json:"ops"`
+	BucketMs  int64      `json:"bucket_ms"`
+	Buckets   int        `json:"buckets"`
+	Threshold int64      `json:"cpu_threshold"`
+	CPU0      int64      `json:"cpu0"`
+	More      []c09ShCfg `json:"more_shedders,omitempty"` // further shedders living in the same process
+	Ops       []c09Op    `json:"ops"`
+}
+
+type c09ShCfg struct {
+	BucketMs  int64 `json:"bucket_ms"`
+	Buckets   int   `json:"buckets"`
+	Threshold int64 `json:"cpu_threshold"`
 }
 
 type c09RB struct{ passes, rtSumNs, rtSumCeilMs, n int64 }
@@ -108,6 +116,7 @@ type c09ShObs struct {
 	admitted, rejected            int64
 	clause1Checked                int64 // Allow calls with the precondition of (1) true
 	clause1AfterCoolOff           int64 // ... of which an overload reading existed, > 1 s ago
+	clause1OtherShedderHot        int64 // ... of which another shedder of the trace took an overload reading < 1 s ago
 	clause2Checked                int64 // rejections (each checked against (2))
 	rejectedOverloadedNow         int64
 	rejectedStillHot              int64
@@ -150,46 +159,71 @@ func c09Cap(win map[int64]*c09RB, cur int64, buckets int, bps int64) (capacity f
 	return float64(maxPass*bps) * minRt / 1000, maxPass, minRt
 }
 
-// c09RunTrace runs one sequential trace against a fresh shedder.
+// c09Side is the reference state kept for one shedder of a trace.
+type c09Side struct {
+	sh        Shedder
+	threshold int64
+	buckets   int
+	bucketNs  int64
+	bps       int64
+	outst     []c09Out
+	win       map[int64]*c09RB
+	hasOver   bool
+	tOver     int64
+	maxOut    int64
+	tag       string // "" for single-shedder traces, ":shedder-N-of-M" otherwise (signature suffix)
+}
+
+// c09RunTrace runs one sequential trace against fresh shedder(s): the primary one
+// (BucketMs/Buckets/Threshold) plus tr.More; op.S selects the shedder. All shedders
+// share the virtual clock and the scripted CPU reading, and each Allow is judged
+// against the readings its own shedder took (its own threshold, its own Allow calls).
 func c09RunTrace(m *vk.M, idx int, tr c09Trace, obs *c09ShObs) {
 	desc := func() string { return fmt.Sprintf("case=%d;%s", idx, vk.JSON(tr)) }
-	bucketNs := tr.BucketMs * int64(time.Millisecond)
-	startNs := (1_000_000 + int64(idx%1000)) * bucketNs // on the bucket grid
+	startNs := (1_000_000 + int64(idx%1000)) * tr.BucketMs * c09Ms // on the bucket grid
+	if len(tr.More) > 0 {
+		startNs = (1_000_000 + int64(idx%1000)) * 1000 * c09Ms // whole seconds: on every bucket grid used
+	}
 	timex.VerifFakeClock(time.Duration(startNs))
 	atomic.StoreInt64(&c09CPU, tr.CPU0)
-	sh := NewAdaptiveShedder(WithWindow(time.Duration(bucketNs)*time.Duration(tr.Buckets)), WithBuckets(tr.Buckets), WithCpuThreshold(tr.Threshold))
-	bps := 1000 / tr.BucketMs
+	cfgs := append([]c09ShCfg{{BucketMs: tr.BucketMs, Buckets: tr.Buckets, Threshold: tr.Threshold}}, tr.More...)
+	sides := make([]*c09Side, len(cfgs))
+	for k, c := range cfgs {
+		bns := c.BucketMs * c09Ms
+		sd := &c09Side{threshold: c.Threshold, buckets: c.Buckets, bucketNs: bns, bps: 1000 / c.BucketMs, win: map[int64]*c09RB{}}
+		sd.sh = NewAdaptiveShedder(WithWindow(time.Duration(bns)*time.Duration(c.Buckets)), WithBuckets(c.Buckets), WithCpuThreshold(c.Threshold))
+		if len(cfgs) > 1 {
+			sd.tag = fmt.Sprintf(":shedder-%d-of-%d", k+1, len(cfgs))
+		}
+		sides[k] = sd
+	}
 	now := startNs // virtual ns
 	cpu := tr.CPU0
-	var outst []c09Out
-	win := map[int64]*c09RB{}
-	hasOver := false
-	var tOver int64
-	var maxOut int64
 	calls0 := atomic.LoadInt64(&c09CheckerCalls)
 	defer func() { obs.checkerCalls += atomic.LoadInt64(&c09CheckerCalls) - calls0 }()
 
-	invariants := func(step int) bool {
-		f := c09Flying(sh)
+	invariants := func(step int, sd *c09Side) bool {
+		f := c09Flying(sd.sh)
 		if f < 0 {
-			m.Violate("C09:shedder:flying-negative", desc(), "step %d: flying=%d with %d admitted requests outstanding", step, f, len(outst))
+			m.Violate("C09:shedder:flying-negative"+sd.tag, desc(), "step %d: flying=%d with %d admitted requests outstanding", step, f, len(sd.outst))
 			return false
 		}
-		if len(outst) == 0 {
+		if len(sd.outst) == 0 {
 			obs.quiescenceChecks++
 			if f != 0 {
-				m.Violate("C09:shedder:flying-nonzero-at-quiescence", desc(), "step %d: every admitted request has reported Pass/Fail but flying=%d", step, f)
+				m.Violate("C09:shedder:flying-nonzero-at-quiescence"+sd.tag, desc(), "step %d: every admitted request has reported Pass/Fail but flying=%d", step, f)
 				return false
 			}
 		}
-		if a := c09AvgFlying(sh); a < -1e-9 || a > float64(maxOut)+1e-9 {
-			m.Violate("C09:shedder:avg-flying-out-of-range", desc(), "step %d: smoothed in-flight value %.6f outside [0, max outstanding %d]", step, a, maxOut)
+		if a := c09AvgFlying(sd.sh); a < -1e-9 || a > float64(sd.maxOut)+1e-9 {
+			m.Violate("C09:shedder:avg-flying-out-of-range"+sd.tag, desc(), "step %d: smoothed in-flight value %.6f outside [0, max outstanding %d]", step, a, sd.maxOut)
 			return false
 		}
 		return true
 	}
 
 	for step, op := range tr.Ops {
+		sd := sides[op.S%len(sides)]
 		switch op.Op {
 		case "adv", "advu":
 			d := op.D * c09Ms
@@ -198,30 +232,32 @@ func c09RunTrace(m *vk.M, idx int, tr c09Trace, obs *c09ShObs) {
 			}
 			timex.VerifAdvance(time.Duration(d))
 			now += d
-			cur := (now - startNs) / bucketNs
-			for i := range win {
-				if i < cur-int64(tr.Buckets) {
-					delete(win, i)
+			for _, x := range sides {
+				cur := (now - startNs) / x.bucketNs
+				for i := range x.win {
+					if i < cur-int64(x.buckets) {
+						delete(x.win, i)
+					}
 				}
 			}
 		case "cpu":
 			cpu = op.D
 			atomic.StoreInt64(&c09CPU, cpu)
 		case "pass", "fail":
-			if len(outst) == 0 {
+			if len(sd.outst) == 0 {
 				continue
 			}
-			j := op.I % len(outst)
-			o := outst[j]
-			outst = append(outst[:j], outst[j+1:]...)
+			j := op.I % len(sd.outst)
+			o := sd.outst[j]
+			sd.outst = append(sd.outst[:j], sd.outst[j+1:]...)
 			if op.Op == "pass" {
 				o.p.Pass()
 				obs.passes++
-				cur := (now - startNs) / bucketNs
-				b := win[cur]
+				cur := (now - startNs) / sd.bucketNs
+				b := sd.win[cur]
 				if b == nil {
 					b = &c09RB{}
-					win[cur] = b
+					sd.win[cur] = b
 				}
 				b.passes++
 				lat := now - o.start
@@ -238,42 +274,50 @@ func c09RunTrace(m *vk.M, idx int, tr c09Trace, obs *c09ShObs) {
 				o.p.Fail()
 				obs.fails++
 			}
-			if !invariants(step) {
+			if !invariants(step, sd) {
 				return
 			}
 		case "arr":
-			overNow := cpu >= tr.Threshold
-			since := now - tOver
-			cool := !overNow && (!hasOver || since > 1000*c09Ms)
-			hotWindow := hasOver && since <= 1000*c09Ms
-			cur := (now - startNs) / bucketNs
-			capacity, maxPass, minRt := c09Cap(win, cur, tr.Buckets, bps)
-			out := int64(len(outst))
-			avg := c09AvgFlying(sh)
+			overNow := cpu >= sd.threshold
+			since := now - sd.tOver
+			cool := !overNow && (!sd.hasOver || since > 1000*c09Ms)
+			hotWindow := sd.hasOver && since <= 1000*c09Ms
+			cur := (now - startNs) / sd.bucketNs
+			capacity, maxPass, minRt := c09Cap(sd.win, cur, sd.buckets, sd.bps)
+			out := int64(len(sd.outst))
+			avg := c09AvgFlying(sd.sh)
 			if cool {
 				obs.clause1Checked++
-				if hasOver {
+				if sd.hasOver {
 					obs.clause1AfterCoolOff++
 				}
+				if len(sides) > 1 {
+					for _, x := range sides {
+						if x != sd && x.hasOver && now-x.tOver <= 1000*c09Ms {
+							obs.clause1OtherShedderHot++ // cool for this shedder while a sibling saw overload < 1 s ago
+							break
+						}
+					}
+				}
 			}
-			if !overNow && hasOver && since == 1000*c09Ms {
+			if !overNow && sd.hasOver && since == 1000*c09Ms {
 				obs.boundaryExactly1s++
 			}
-			ago := c09Ago(hasOver, since)
-			p, err := sh.Allow()
+			ago := c09Ago(sd.hasOver, since)
+			p, err := sd.sh.Allow()
 			if overNow {
-				hasOver, tOver = true, now
+				sd.hasOver, sd.tOver = true, now
 			}
 			if err == nil {
 				obs.admitted++
-				outst = append(outst, c09Out{p: p, start: now})
-				if int64(len(outst)) > maxOut {
-					maxOut = int64(len(outst))
-					if maxOut > obs.maxOutstanding {
-						obs.maxOutstanding = maxOut
+				sd.outst = append(sd.outst, c09Out{p: p, start: now})
+				if int64(len(sd.outst)) > sd.maxOut {
+					sd.maxOut = int64(len(sd.outst))
+					if sd.maxOut > obs.maxOutstanding {
+						obs.maxOutstanding = sd.maxOut
 					}
 				}
-				if !invariants(step) {
+				if !invariants(step, sd) {
 					return
 				}
 				continue
@@ -281,14 +325,14 @@ func c09RunTrace(m *vk.M, idx int, tr c09Trace, obs *c09ShObs) {
 			obs.rejected++
 			obs.clause2Checked++
 			state := fmt.Sprintf("virtual t=+%.3fms cpu=%d threshold=%d lastOverloadReading=%s outstanding=%d avgFlying=%.3f; reference window: maxPass/bucket=%d bucketsPerSecond=%d minMeanLatency=%.4fms capacity=%.3f",
-				float64(now-startNs)/1e6, cpu, tr.Threshold, ago, out, avg, maxPass, bps, minRt, capacity)
+				float64(now-startNs)/1e6, cpu, sd.threshold, ago, out, avg, maxPass, sd.bps, minRt, capacity)
 			obs.lastRejectDetail = state
 			if cool {
 				sub := "never-overloaded"
-				if hasOver {
+				if sd.hasOver {
 					sub = "after-cool-off"
 				}
-				m.Violate("C09:shedder:rejected-while-cool:"+sub, desc(), "step %d: Allow rejected although CPU is below the threshold and no overload reading exists within the last second (%s)", step, state)
+				m.Violate("C09:shedder:rejected-while-cool:"+sub+sd.tag, desc(), "step %d: Allow rejected although CPU is below this shedder's threshold and it took no overload reading within the last second (%s)", step, state)
 				return
 			}
 			if overNow {
@@ -301,30 +345,32 @@ func c09RunTrace(m *vk.M, idx int, tr c09Trace, obs *c09ShObs) {
 				obs.capacityFromWindow++
 			}
 			if !(float64(out) > capReal) {
-				m.Violate("C09:shedder:rejected-below-capacity:flying", desc(), "step %d: Allow rejected with in-flight requests not above the capacity estimated from the window (%s)", step, state)
+				m.Violate("C09:shedder:rejected-below-capacity:flying"+sd.tag, desc(), "step %d: Allow rejected with in-flight requests not above the capacity estimated from the window (%s)", step, state)
 				return
 			}
 			if !(avg > capReal) {
-				m.Violate("C09:shedder:rejected-below-capacity:avg-flying", desc(), "step %d: Allow rejected with the smoothed in-flight value not above the capacity estimated from the window (%s)", step, state)
+				m.Violate("C09:shedder:rejected-below-capacity:avg-flying"+sd.tag, desc(), "step %d: Allow rejected with the smoothed in-flight value not above the capacity estimated from the window (%s)", step, state)
 				return
 			}
-			if !invariants(step) {
+			if !invariants(step, sd) {
 				return
 			}
 		}
 	}
 	// quiescence: report every outstanding promise
-	for i, o := range outst {
-		if i%5 == 0 {
-			o.p.Fail()
-			obs.fails++
-		} else {
-			o.p.Pass()
-			obs.passes++
+	for _, sd := range sides {
+		for i, o := range sd.outst {
+			if i%5 == 0 {
+				o.p.Fail()
+				obs.fails++
+			} else {
+				o.p.Pass()
+				obs.passes++
+			}
 		}
+		sd.outst = nil
+		invariants(len(tr.Ops), sd)
 	}
-	outst = nil
-	invariants(len(tr.Ops))
 }
 
 func c09Ago(has bool, since int64) string {
@@ -586,7 +632,7 @@ func TestVerifC09ShedderTraces(t *testing.T) {
 				"admitted": obs.admitted - before.admitted, "rejected": obs.rejected - before.rejected,
 				"passes": obs.passes - before.passes, "fails": obs.fails - before.fails,
 				"forced_admissions_checked": obs.clause1Checked - before.clause1Checked,
-				"last_rejection_state": obs.lastRejectDetail})
+				"last_rejection_state":      obs.lastRejectDetail})
 		}
 		if idx%100 == 0 {
 			m.Progress()
@@ -644,8 +690,8 @@ func TestVerifC09ShedderFractional(t *testing.T) {
 			m.Sample(map[string]any{"trace_first_8_ops": short, "ops": len(tr.Ops),
 				"admitted": obs.admitted - before.admitted, "rejected": obs.rejected - before.rejected,
 				"passes_fractional_latency": obs.passesFractional - before.passesFractional,
-				"passes_sub_ms_latency": obs.passesSubMs - before.passesSubMs,
-				"last_rejection_state": obs.lastRejectDetail})
+				"passes_sub_ms_latency":     obs.passesSubMs - before.passesSubMs,
+				"last_rejection_state":      obs.lastRejectDetail})
 		}
 		if idx%50 == 0 {
 			m.Progress()
@@ -656,6 +702,136 @@ func TestVerifC09ShedderFractional(t *testing.T) {
 	m.Count("clause1_forced_admissions_checked", obs.clause1Checked)
 	m.Count("clause2_rejections_checked", obs.clause2Checked)
 	m.Count("rejections_with_window_derived_capacity", obs.capacityFromWindow)
+	c09CountObs(m, obs)
+}
+
+// c09GenPair builds a trace for two shedders with different CPU thresholds living in
+// one process (api/engine.go builds exactly that for normal and priority routes): a
+// random single-shedder trace whose request ops are dealt to the two shedders in runs,
+// with "cross-talk" episodes spliced in: the high-threshold shedder is driven into
+// shedding, then the CPU reading settles between the two thresholds while the
+// low-threshold shedder keeps taking (for it) overloaded readings, and the
+// high-threshold shedder is asked again before and after its own cool-off second.
+func c09GenPair(r *rand.Rand) c09Trace {
+	tr := c09GenTrace(r, 300+r.Intn(300))
+	ths := [][2]int64{{100, 900}, {500, 900}, {900, 100}, {950, 500}, {300, 600}}[r.Intn(5)]
+	tr.Threshold = ths[0]
+	tr.More = []c09ShCfg{{BucketMs: []int64{50, 100, 250}[r.Intn(3)], Buckets: []int{4, 10, 20}[r.Intn(3)], Threshold: ths[1]}}
+	if r.Intn(2) == 0 {
+		tr.More[0].BucketMs, tr.More[0].Buckets = tr.BucketMs, tr.Buckets
+	}
+	hi, lo := 0, 1
+	if ths[1] > ths[0] {
+		hi, lo = 1, 0
+	}
+	hiTh, loTh := ths[hi], ths[lo]
+	episode := func() []c09Op {
+		var e []c09Op
+		emit := func(op c09Op) { e = append(e, op) }
+		churn := func(n int) {
+			for i := 0; i < n; i++ {
+				if r.Intn(3) > 0 {
+					emit(c09Op{Op: "adv", D: 1 + int64(r.Intn(20))})
+				}
+				emit(c09Op{Op: "pass", I: r.Intn(1 << 16), S: hi})
+				emit(c09Op{Op: "arr", S: hi})
+			}
+		}
+		emit(c09Op{Op: "cpu", D: int64(r.Intn(int(loTh)))})
+		for i, n := 0, 2+r.Intn(5); i < n; i++ {
+			emit(c09Op{Op: "arr", S: hi})
+		}
+		churn(30 + r.Intn(40))
+		for i, n := 0, 30+r.Intn(40); i < n; i++ {
+			emit(c09Op{Op: "arr", S: hi})
+		}
+		churn(25 + r.Intn(30))
+		emit(c09Op{Op: "cpu", D: hiTh + int64(r.Intn(100))})
+		for i, n := 0, 3+r.Intn(5); i < n; i++ {
+			emit(c09Op{Op: "arr", S: hi})
+		}
+		emit(c09Op{Op: "cpu", D: loTh + r.Int63n(hiTh-loTh)}) // overloaded for lo only
+		for i, n := 0, 4+r.Intn(6); i < n; i++ {
+			emit(c09Op{Op: "arr", S: lo})
+			emit(c09Op{Op: "adv", D: []int64{150, 250, 334, 400, 600}[r.Intn(5)]})
+			if r.Intn(2) == 0 {
+				emit(c09Op{Op: "arr", S: hi})
+			}
+		}
+		emit(c09Op{Op: "arr", S: lo})
+		emit(c09Op{Op: "arr", S: hi})
+		emit(c09Op{Op: "arr", S: hi})
+		return e
+	}
+	var ops []c09Op
+	cur := r.Intn(2)
+	nEp := 1 + r.Intn(2)
+	cut := map[int]bool{}
+	for i := 0; i < nEp; i++ {
+		cut[r.Intn(len(tr.Ops)+1)] = true
+	}
+	for i, op := range tr.Ops {
+		if cut[i] {
+			ops = append(ops, episode()...)
+		}
+		if r.Intn(15) == 0 {
+			cur = 1 - cur
+		}
+		if op.Op == "cpu" { // spread readings over both thresholds' neighbourhoods
+			op.D = []int64{0, loTh - 1, loTh, (loTh + hiTh) / 2, hiTh - 1, hiTh, hiTh + 50}[r.Intn(7)]
+		}
+		op.S = cur
+		ops = append(ops, op)
+	}
+	if cut[len(tr.Ops)] {
+		ops = append(ops, episode()...)
+	}
+	tr.Ops = ops
+	return tr
+}
+
+// TestVerifC09ShedderPair: two shedders with different thresholds in one process.
+func TestVerifC09ShedderPair(t *testing.T) {
+	m := vk.New(t, "C09", "seeded traces over TWO shedders (different CPU thresholds, same or different windows) sharing the process, the virtual clock and the scripted CPU reading; request ops dealt to the shedders in runs plus cross-talk episodes (reading between the thresholds while the low-threshold shedder keeps being asked); every Allow judged against implications (1)/(2) using only the readings its own shedder took; non-trivial = a rejection occurred and a shedder had to admit while its sibling had an overload reading < 1 s old")
+	defer m.Done()
+	c09Quiet()
+	restore := c09InstallChecker()
+	defer restore()
+	defer timex.VerifRealClock()
+	n := vk.N(300, 8000)
+	r := m.Rand("pair")
+	obs := &c09ShObs{}
+	for idx := 1; idx <= n; idx++ {
+		tr := c09GenPair(r)
+		if !m.Only(idx) {
+			continue
+		}
+		before := *obs
+		m.Current(fmt.Sprintf("case=%d", idx))
+		c09RunTrace(m, idx, tr, obs)
+		m.Case(vk.Digest(vk.JSON(tr)), obs.rejected > before.rejected && obs.clause1OtherShedderHot > before.clause1OtherShedderHot)
+		if m.WantSample() && obs.rejected > before.rejected && idx%41 == 1 {
+			short := tr
+			if len(short.Ops) > 8 {
+				short.Ops = short.Ops[:8]
+			}
+			m.Sample(map[string]any{"trace_first_8_ops": short, "ops": len(tr.Ops),
+				"admitted": obs.admitted - before.admitted, "rejected": obs.rejected - before.rejected,
+				"forced_admissions_while_sibling_hot": obs.clause1OtherShedderHot - before.clause1OtherShedderHot,
+				"last_rejection_state":                obs.lastRejectDetail})
+		}
+		if idx%50 == 0 {
+			m.Progress()
+		}
+	}
+	m.Count("allow_admitted", obs.admitted)
+	m.Count("allow_rejected", obs.rejected)
+	m.Count("clause1_forced_admissions_checked", obs.clause1Checked)
+	m.Count("clause1_after_cool_off_expired", obs.clause1AfterCoolOff)
+	m.Count("clause1_forced_admission_while_sibling_shedder_hot", obs.clause1OtherShedderHot)
+	m.Count("clause2_rejections_checked", obs.clause2Checked)
+	m.Count("rejected_while_overloaded_now", obs.rejectedOverloadedNow)
+	m.Count("rejected_within_cool_off_second", obs.rejectedStillHot)
 	c09CountObs(m, obs)
 }
 
